@@ -228,6 +228,27 @@ def collision_scripts(rng, n, conflicting_returns=True, shadow_helpers=True):
         out.append(HDR + victim + "\nmon.write(m)\nk = m\nmon.write(k)\n")
         out.append(HDR + f"def {nm}(a):\n    return \"s\" + a\nr = {nm}(\"x\")\nmon.write(r)\n")
         out.append(HDR + victim + "\nmon.write(m)\n")
+    # a script that is REJECTED half-way (whatever it registered until then must be gone), then an accepted one sharing its names
+    bad_good = [
+        ("def mix(a, b):\n    return a + b\nr = mix(0.5)\nmon.write(r)\n", "def mix(a):\n    return a * 2\nr = mix(0.5)\nmon.write(r)\n"),
+        ("def mix(a):\n    return a * 2\nq = mix(0.5)\nwhile True:\n    break\n", "def mix(a):\n    return a * 2\nq = mix(0.5)\nmon.write(q)\n"),
+        ("bz = Buzzer(8)\ndef tune(k):\n    bz.melody(\"no-such-tune\")\n    return k\nz = tune(1)\n", "bz = Buzzer(8)\ndef tune(k):\n    bz.melody(\"siren\")\n    return k\nz = tune(1.5)\nmon.write(z)\n"),
+        ("lv = [1, 2, 3]\nlv.append(4)\nreturn 5\n", "lv = [1, 2, 3]\nmon.write(len(lv))\n"),
+        ("def area(w, h):\n    return w * h\nbig = area(2.5, 2)\nled = Led(13)\nled.blink(5, times=1, oops=2, )\nsv = Servo(6, min_angle=90, max_angle=10)\n", "def area(w, h):\n    return w * h\nbig = area(2, 2)\nmon.write(big)\n"),
+    ]
+    for bad, good in bad_good if shadow_helpers else ():
+        out += [HDR + good, HDR + bad, HDR + good]
+    # the same number once as a default, once written out, once as the other numeric type (100 / 100.0 / True / 1)
+    for a, b in (("bz = Buzzer(8)\nbz.beep()\n", "bz = Buzzer(8)\nbz.beep(880, on_ms=100)\n"), ("bz = Buzzer(8)\nbz.beep(880, on_ms=100.0)\n", "bz = Buzzer(8)\nbz.beep(880, on_ms=100)\n"),
+                 ("led = Led(13)\nled.blink(500)\n", "led = Led(13)\nled.blink(500.0, times=1)\n"), ("sleep(100)\n", "sleep(100.0)\n"), ("sv = Servo(6)\nsv.write(90)\n", "sv = Servo(6)\nsv.write(90.0)\n"),
+                 ("lcd = LCD(i2c_addr=39)\nlcd.progress(0, 50)\n", "lcd = LCD(i2c_addr=39)\nlcd.progress(0, 50.0, max_value=100)\n"), ("led = Led(13)\nled.set_brightness(1)\n", "led = Led(13)\nled.set_brightness(True)\n"),
+                 ("m = DCMotor(2, 4, 5)\nm.set_speed(1)\n", "m = DCMotor(2, 4, 5)\nm.set_speed(1.0)\nm.set_speed(True)\n")) if shadow_helpers else ():
+        out += [HDR + b, HDR + a, HDR + b, HDR + a]
+    # helpers with the same names but another call graph / other devices behind the same text
+    out += [HDR + "def first():\n    return flash(1)\ndef flash(n):\n    return n\nq = first()\n", HDR + "def first():\n    return 1\ndef flash(n):\n    return n + 1\nq = first()\nw = flash(2)\nmon.write(w)\n",
+            HDR + "lamp = Led(13)\ndef wake():\n    lamp.on()\n    return 1\nq = wake()\n", HDR + "lamp = RGBLed(9, 10, 11)\ndef wake():\n    lamp.on()\n    return 1\nq = wake()\n",
+            HDR + "def quiet():\n    bz.stop()\n    return 0\nbz = Buzzer(8)\nq = quiet()\n", HDR + "bz = Buzzer(8)\ndef quiet():\n    bz.stop()\n    return 0\nq = quiet()\n",
+            HDR + "lamp = Led(13)\ndef wake():\n    lamp.on()\n    return 1\nq = wake()\n"] if shadow_helpers else []
     # helpers whose return statements disagree on the type (rejected today: whatever happens instead must not depend on set order)
     for a, b in (("[1, 2, 3]", "[0.5, 1.5, 2.5]"), ("[1, 2]", '["a", "b"]'), ('"a"', "2.5"), ("True", "[1]")) if conflicting_returns else ():
         out.append(HDR + f"def pick(k):\n    if k > 0:\n        return {a}\n    elif k < 0:\n        return {b}\n    return {a}\nxs = pick(1)\nys = pick(-1)\n")
